@@ -313,6 +313,13 @@ func runCase(mode string, shape []field, prefix string, fm map[string]string) li
 			return ln
 		}
 		ln.Names = append(ln.Names, fs.Secrets()...)
+		// what a caller does with the list it was handed (sorting it for a StoreConfig, say) is its own business
+		if got := fs.Secrets(); len(got) > 1 {
+			for i, j := 0, len(got)-1; i < j; i, j = i+1, j-1 {
+				got[i], got[j] = got[j], got[i]
+			}
+			got[0] = "scribbled/" + got[0]
+		}
 		applyErr = fs.Apply(context.Background(), st)
 	} else {
 		// every secret the fields name exists, so construction never has to wait; the deadline only keeps a
